@@ -43,6 +43,15 @@ pub fn gen(r: &mut Rng, thorough: bool, count: Option<usize>) -> Vec<Value> {
             "iters": 6 + r.below(if thorough { 14 } else { 8 }), "keys": 1, "busy_ms": *r.pick(&[20u64, 50]),
             "seed": r.next() % 1_000_000}));
     }
+    // a plain session's single call is atomic for concurrent readers — also AFTER one of its calls was refused: one writer keeps
+    // ONE plain session, has a duplicate insert refused, then replaces a record (value i, 24 tags all carrying i) over and over
+    // while readers fetch it; a reader must never see a value whose tags are missing or belong to another round
+    for j in 0..(n / 10).max(1) {
+        out.push(json!({"id": n + n / 6 + n / 8 + 2 + j, "kind": "c10", "workload": "plainatomic", "file": r.chance(2, 3),
+            "pool": *r.pick(&[2u64, 4, 8]), "tasks": 2 + r.below(3), "readers": 0,
+            "iters": 20 + r.below(if thorough { 60 } else { 25 }), "keys": 1, "busy_ms": 3000u64,
+            "seed": r.next() % 1_000_000}));
+    }
     out
 }
 
@@ -193,6 +202,38 @@ pub fn exec(case: &Value, tag: &str) -> Value {
                     if t >= tasks {
                         // reader
                         for i in 0..(iters * 2) { snapshot(&backend, &sh, i % 2 == 1).await; }
+                        return;
+                    }
+                    if workload == "plainatomic" {
+                        use askar_storage::entry::EntryTag;
+                        if t == 0 {
+                            let tags_of = |i: usize| -> Vec<EntryTag> { (0..24).map(|k| if k % 2 == 0 { EntryTag::Encrypted(format!("t{}", k), i.to_string()) } else { EntryTag::Plaintext(format!("t{}", k), i.to_string()) }).collect() };
+                            if let Ok(mut s) = backend.session(None, false) {
+                                s.update(EntryKind::Item, EntryOperation::Insert, "pa", "rec", Some(b"0"), Some(&tags_of(0)), None).await.ok();
+                                // every other case: a refused call first (the session object is kept)
+                                if (seed / 1000) % 2 == 0 {
+                                    if s.update(EntryKind::Item, EntryOperation::Insert, "pa", "rec", Some(b"x"), None, None).await.is_err() { sh.bump("plainatomic-refused-call"); }
+                                    if s.update(EntryKind::Item, EntryOperation::Remove, "pa", "missing", None, None, None).await.is_err() { sh.bump("plainatomic-refused-call"); }
+                                }
+                                for i in 1..=iters {
+                                    if s.update(EntryKind::Item, EntryOperation::Replace, "pa", "rec", Some(i.to_string().as_bytes()), Some(&tags_of(i)), None).await.is_ok() { sh.bump("plainatomic-replace"); }
+                                }
+                                s.close(true).await.ok();
+                            }
+                            creators_left.store(0, Ordering::SeqCst);
+                        } else {
+                            while creators_left.load(Ordering::SeqCst) > 0 {
+                                if let Ok(mut s) = backend.session(None, false) {
+                                    if let Ok(Some(e)) = s.fetch(EntryKind::Item, "pa", "rec", false).await {
+                                        let v = String::from_utf8_lossy(e.value.as_ref()).to_string();
+                                        let bad = e.tags.len() != 24 || e.tags.iter().any(|t| t.value() != v);
+                                        sh.bump("plainatomic-read");
+                                        if bad { sh.fail(json!({"sig": "plainatomic:reader-saw-a-half-applied-call", "value": v, "tags": e.tags.len()})); }
+                                    }
+                                    s.close(false).await.ok();
+                                }
+                            }
+                        }
                         return;
                     }
                     if workload == "proffail" {
@@ -382,7 +423,7 @@ pub fn exec(case: &Value, tag: &str) -> Value {
     // ---- the harness's own verdicts (independent of the Lean checker)
     let mut state: BTreeMap<String, i64> = keys.iter().map(|k| (k.clone(), init_val)).collect();
     state.insert("ver".to_string(), 0);
-    if workload == "tokens" || workload.starts_with("prof") { state.clear(); }
+    if workload == "tokens" || workload.starts_with("prof") || workload == "plainatomic" { state.clear(); }
     let init_pairs: Vec<(String, i64)> = state.iter().map(|(k, v)| (k.clone(), *v)).collect();
     let mut serial_ok = true;
     let mut prefix_states = vec![state.clone()];
